@@ -127,8 +127,9 @@ pub fn enum_iter_inner(ast: &DeriveInput) -> syn::Result<TokenStream> {
 
             #[inline]
             fn nth(&mut self, n: usize) -> ::core::option::Option<<Self as Iterator>::Item> {
-                let idx = self.idx + n + 1;
-                if idx + self.back_idx > #variant_count {
+                // `n` can be anything up to `usize::MAX`, so the additions must not overflow.
+                let idx = self.idx.saturating_add(n).saturating_add(1);
+                if idx.saturating_add(self.back_idx) > #variant_count {
                     // We went past the end of the iterator. Freeze idx at #variant_count
                     // so that it doesn't overflow if the user calls this repeatedly.
                     // See PR #76 for context.
